@@ -31,6 +31,12 @@ def gen_case(rng):
         else:
             ops.append(["load", rng.choice(["fil", "h5"])])
     c["ops"] = ops
+    if rng.random() < 0.2:
+        # degenerate geometries: a single integration (a spectrum), one or two channels (a time series).  blimpy's .h5 reader
+        # refuses fewer than 3 integrations / channels, so these go through .fil only, with histories that keep the shape.
+        c["T"] = rng.choice([1, 1, 2, c["T"]]); c["F"] = rng.choice([1, 2, 8, 33]) if c["T"] <= 2 else rng.choice([1, 2])
+        c["formats"] = ["fil"]
+        c["ops"] = [o if o[0] in ("get_waterfall", "copy") else [o[0], "fil"] for o in ops if o[0] in ("get_waterfall", "copy", "save", "load")]
     return c
 
 
@@ -55,7 +61,7 @@ def model_ops(c, hist):
 def run(ctx):
     rng = ctx.rng
     quick = ctx.tier == "quick"
-    ctx.rule = ("frames 3-8 x 8-64, realistic (2.79 Hz / 18.25 s / 6 GHz) and integral headers, both orientations; histories of 0-5 operations from "
+    ctx.rule = ("frames 3-8 x 8-64 (and, through .fil only, 1-2 integrations and / or 1-2 channels), realistic (2.79 Hz / 18.25 s / 6 GHz) and integral headers, both orientations; histories of 0-5 operations from "
                 "get_waterfall, copy (continuing with the copy or the original), slice, dedrift, intermediate save, save-and-reload; then save as "
                 ".fil and .h5 and read back by setigen, blimpy and the waterfall_utils helpers; non-trivial = non-empty history; distinct = distinct case")
     ctx.assumptions = ["blimpy 2.1.4 / h5py are the modelled environment; blimpy needs >= 3 integrations and channels for .h5",
@@ -79,6 +85,7 @@ def run(ctx):
     for i, (c, r) in enumerate(zip(cases, impl)):
         ctx.count(c, nontrivial=len(c["ops"]) > 0)
         ctx.tally("history_len", len(c["ops"])); ctx.tally("orientation", "asc" if c["ascending"] else "desc")
+        ctx.tally("geometry", "degenerate (T<=2 or F<=2, .fil only)" if c.get("formats") else "regular")
         for o in c["ops"]:
             ctx.tally("ops", o[0])
         for key, msg in r["fails"]:
